@@ -1,7 +1,16 @@
 // C01 correspondence harness: grid-exact geometry pairs through every relate path of the C API.
 //   c01 relate-grid <seed> <n> <outbase>
+//   c01 prep-core <seed> <n> <outbase>   (the four prepared-polygon fast-path classes and the PreparedPolygon wrappers against the facts of
+//                                         their decision core, computed exactly on the lattice: Model/Relate/PrepPoly.lean)
 //   c01 replay <file>        (file holds case lines; re-evaluates the observations for "A | B" parts)
 #include "relobs.h"
+#include "c01gen.h"
+#include <geos/geom/prep/PreparedPolygon.h>
+#include <geos/geom/prep/PreparedPolygonContains.h>
+#include <geos/geom/prep/PreparedPolygonCovers.h>
+#include <geos/geom/prep/PreparedPolygonContainsProperly.h>
+#include <geos/geom/prep/PreparedPolygonIntersects.h>
+#include <geos/geom/Polygon.h>
 #include <geos/operation/relateng/RelatePredicate.h>
 #include <geos/operation/relateng/RelateMatrixPredicate.h>
 #include <geos/operation/relateng/IMPatternMatcher.h>
@@ -51,6 +60,39 @@ static std::string predSM(Rng& r, Out& out, std::string& caseLine) {
     caseLine = "S " + kind + " " + std::to_string(dA) + " " + std::to_string(dB) + " | " + envs(na, a) + " | " + envs(nb, b) + " |" + ups;
     return trace;
 }
+
+
+// ---- stream prep-core
+// AbstractPreparedPolygonContains::isPuntalIgnoringEmpty is private: the same recursion on the public API
+static bool puntalIgnoringEmpty(const Geometry* g) {
+    if (g->getDimension() == 0) return true;
+    if (!g->isCollection()) return false;
+    bool hasPoints = false;
+    for (std::size_t i = 0; i < g->getNumGeometries(); i++) { const Geometry* e = g->getGeometryN(i); if (e->isEmpty()) continue; if (!puntalIgnoringEmpty(e)) return false; hasPoints = true; }
+    return hasPoints; }
+static std::string prepCore(const GGeom& T, const GGeom& G, const Geometry* gt, const Geometry* gg, Out& out, std::string& expect) {
+    using namespace geos::geom::prep;
+    PrepFacts f = prepFacts(T, G);
+    auto b = [](bool v) { return v ? "1" : "0"; };
+    bool single = gt->getNumGeometries() == 1 && dynamic_cast<const geos::geom::Polygon*>(gt->getGeometryN(0)) && dynamic_cast<const geos::geom::Polygon*>(gt->getGeometryN(0))->getNumInteriorRing() == 0;
+    bool polygonal = gg->getGeometryTypeId() == geos::geom::GEOS_POLYGON || gg->getGeometryTypeId() == geos::geom::GEOS_MULTIPOLYGON;
+    bool fc = false, fv = false; try { fc = gt->contains(gg); fv = gt->covers(gg); } catch (const std::exception&) { out.count("full_predicate_throws"); }
+    bool ec = gt->getEnvelopeInternal()->covers(gg->getEnvelopeInternal()), ei = gt->getEnvelopeInternal()->intersects(gg->getEnvelopeInternal());
+    bool rect = gt->isRectangle();
+    std::string c = std::string(" tl=") + (f.testLocs.empty() ? "-" : f.testLocs) + " si=" + b(f.segInt) + " pr=" + b(f.proper) + " np=" + b(f.nonProper) +
+        " rl=" + (f.repLocs.empty() ? "-" : f.repLocs) + " fc=" + b(fc) + " fv=" + b(fv) + " pie=" + b(puntalIgnoringEmpty(gg)) + " pu=" + b(gg->isPuntal()) +
+        " d2=" + b(gg->getDimension() == 2) + " pg=" + b(polygonal) + " ss=" + b(single) + " n=" + std::to_string(gg->getNumPoints()) + " ec=" + b(ec) + " ei=" + b(ei) + " rect=" + b(rect);
+    std::string e;
+    try { PreparedPolygon pp(gt);     // one prepared polygon answers all eight questions (its point locator turns from simple to indexed on the way)
+        e += b(PreparedPolygonContains::contains(&pp, gg)); e += b(PreparedPolygonCovers::covers(&pp, gg));
+        e += b(PreparedPolygonContainsProperly::containsProperly(&pp, gg)); e += b(PreparedPolygonIntersects::intersects(&pp, gg)); e += ' ';
+        if (rect) e += "----"; else { e += b(pp.contains(gg)); e += b(pp.covers(gg)); e += b(pp.containsProperly(gg)); e += b(pp.intersects(gg)); } }
+    catch (const std::exception&) { e = "X"; }
+    // which branch decides (distribution only)
+    bool puntalIE = puntalIgnoringEmpty(gg);
+    out.count(puntalIE ? "branch_puntal" : f.testLocs.find('E') != std::string::npos ? "branch_test_point_outside" : f.segInt ? (f.nonProper ? (polygonal && f.proper ? "branch_proper_intersection" : "branch_FULL_TOPOLOGY") : "branch_only_proper_intersections")
+              : gg->getDimension() == 2 ? (f.repLocs.find_first_not_of('E') != std::string::npos ? "branch_target_ring_in_test_area" : "branch_no_contact_all_rings_outside") : "branch_no_contact_lower_dim");
+    expect = e; return c; }
 
 int main(int argc, char** argv) {
     if (argc < 3) return 2;
@@ -107,6 +149,30 @@ int main(int argc, char** argv) {
     if (stream == "pred-sm") {
         for (long i = 0; i < n; i++) { std::string c; std::string t = predSM(r, out, c); out.emit(c, t); }
         GEOS_finish_r(h); return 0; }
+    if (stream == "prep-core") {
+        GridGen gen(r, h, &out); gen.walkPct = 15;
+        for (long i = 0; i < n; i++) {
+            GGeom T, G; int fam = (int) r.below(100);
+            if (fam < 35) { NoContact nc = noContactAreaPair(r, gen); if (!nc.ok) { out.count("nc_rejected"); continue; } T = nc.T; G = nc.B; out.count("family_no_contact"); }
+            else { gen.span = r.chance(60) ? 6 : 10; gen.setPartner(GGeom{}, 0);
+                if (r.chance(25)) { Cheese c = makeCheese(r, gen); T.container = 0; T.elems.push_back(c.poly); } else T = gen.geom(2, false, false);
+                int mode = (int) r.below(100);
+                gen.setPartner(T, r.chance(80) ? 55 : 0);
+                if (mode < 12 && gen.holeSwallower(T, G)) {}
+                else if (mode < 30) G = gen.partialCover(T, true);
+                else { if (mode < 50) gen.setPartnerInterior(T); G = gen.geom(3, true, true); }
+                out.count("family_general"); }
+            Xform t = gen.xform();
+            std::string ta = GridGen::geomTok(T, t), tb = GridGen::geomTok(G, t);
+            std::unique_ptr<Geometry> ga, gb;
+            try { ga = buildGeom(ta, gf); gb = buildGeom(tb, gf); } catch (...) { out.count("build_rejected"); continue; }
+            if (ga->isEmpty() || (ga->getGeometryTypeId() != geos::geom::GEOS_POLYGON && ga->getGeometryTypeId() != geos::geom::GEOS_MULTIPOLYGON)) { out.count("target_not_polygonal"); continue; }
+            if (GEOSisValid_r(h, (GEOSGeometry*) ga.get()) != 1 || GEOSisValid_r(h, (GEOSGeometry*) gb.get()) != 1) { out.count("invalid_skipped"); continue; }
+            out.count(std::string("typeT_") + ga->getGeometryType()); out.count(std::string("typeG_") + gb->getGeometryType());
+            std::string e; std::string c = prepCore(T, G, ga.get(), gb.get(), out, e);
+            out.count("answers_" + e.substr(0, 4));
+            out.emit("K | " + ta + " | " + tb + " |" + c, e); }
+        GEOS_finish_r(h); return 0; }
     GridGen gen(r, h, &out); gen.walkPct = 15;
     // series: ONE prepared geometry of a multi-element A answers for several partners in a row (what an index join does);
     // every answer is still compared with the exact reference of its own pair
@@ -140,7 +206,14 @@ int main(int argc, char** argv) {
         gen.setPartner(A, r.chance(80) ? 55 : 0);
         GGeom B;
         int mode = (int) r.below(100);
-        if (r.chance(4)) {
+        bool keepOrder = false;
+        NoContact nc;
+        if (r.chance(9) && (nc = noContactAreaPair(r, gen)).ok) {
+            // a polygonal geometry with SEVERAL rings (holes, MultiPolygon elements in any order, nested frames) and an areal partner whose boundary
+            // never touches its boundary: every prepared fast path is decided by point-in-area tests alone, the last of which has to look at EVERY
+            // ring of the prepared geometry.  Three times out of four the multi-ring geometry is the prepared one.
+            A = nc.T; B = nc.B; keepOrder = r.chance(50); }
+        else if (r.chance(4)) {
             // a mixed-dimension collection (polygon + line + maybe a point) and a partner lying entirely on its LOWER-dimensional part:
             // points on the line element / equal to the point element, or a chain along the line — the situation in which nothing but the
             // dimension-based defaults of the engine can supply the entries for the exterior of the partner
@@ -163,7 +236,7 @@ int main(int argc, char** argv) {
         else if (mode < 14 && gen.holeSwallower(A, B)) {}
         else if (mode < 26) B = gen.partialCover(A, true);
         else { if (mode < 36) gen.setPartnerInterior(A); B = gen.geom(3, true, true); }
-        if (r.chance(50)) std::swap(A, B);
+        if (!keepOrder && r.chance(50)) std::swap(A, B);
         Xform t = gen.xform();
         std::string ta = GridGen::geomTok(A, t), tb = GridGen::geomTok(B, t);
         std::unique_ptr<Geometry> ga, gb;
